@@ -142,6 +142,78 @@ def text_cases():
     return cs
 
 
+SNOW, EACUTE = 0x2603, 0xE9
+
+
+def ns_cases(r, n_random):
+    """prefixed element names (bound / unbound prefix), a default namespace on html elements, followed by what is written as a
+    numeric reference (U+2603 under the narrow encodings, a supplementary character everywhere, TAB/CR in an attribute) or as
+    %HH (non-ASCII in a URL attribute): the scratch string m_stringBuffer is shared by doPushHasNamespace,
+    writeNumberedEntityReference and accumHexNumber.  (cls, enc, esc, ometa, ds, dp, tree, oracle_ok); HN lines."""
+    cs = []
+    astral = [0xD83D, 0xDE00]
+    refs = [("snow", [SNOW]), ("astral", astral), ("latin", [EACUTE, 0xFF]), ("mix", u16("a") + [SNOW] + astral + [EACUTE])]
+    for enc in ENCS:
+        for esc in (0, 1):
+            for rn, rs in refs:
+                svg = ("el", "svg:svg", [], [("el", "svg:g", [("id", u16("g") + rs)], [("t", rs)])])
+                after = [("el", "p", [("title", rs + [9])], [("t", rs)]), ("el", "a", [("href", u16("http://h/") + rs)], [("t", u16("x"))])]
+                # bound prefix, declared on the root / on the element itself / unbound (HTML path, name with a colon)
+                cs.append(("ns:root-decl:" + rn, enc, esc, 1, "-", "-", [("el", "html", [("xmlns:svg", "http://www.w3.org/2000/svg")], [("el", "body", [], [svg] + after)])], True))
+                cs.append(("ns:self-decl:" + rn, enc, esc, 1, "-", "-", [("el", "div", [], [("el", "m:math", [("xmlns:m", "urn:m"), ("title", rs)], []), ("el", "a", [("href", rs)], [])])], True))
+                cs.append(("ns:unbound:" + rn, enc, esc, 1, "-", "-", [("el", "div", [], [("el", "x:y", [("title", rs)], [("t", rs)]), ("el", "a", [("href", rs)], [("t", rs)])])], True))
+                cs.append(("ns:empty-uri:" + rn, enc, esc, 1, "-", "-", [("el", "div", [("xmlns:e", "")], [("el", "e:f", [], [("t", rs)]), ("el", "img", [("src", rs)], [])])], True))
+                # default namespace on html elements: everything is written the XML way (<br/>, escaped SCRIPT text): correspondence only
+                cs.append(("ns:default:" + rn, enc, esc, 0, "-", "-", [("el", "html", [("xmlns", "http://www.w3.org/1999/xhtml")],
+                           [("el", "head", [], []), ("el", "body", [], [("el", "br", [], []), ("el", "a", [("href", rs)], [("t", rs)]), ("el", "script", [], [("t", u16("a<b") + rs)])])])], False))
+                # a processing instruction and a comment between the prefixed start tag and the reference
+                cs.append(("ns:pi-between:" + rn, enc, esc, 1, "-", "-", [("el", "div", [("xmlns:q", "urn:q")], [("el", "q:r", [], [("p", "t", u16("d")), ("m", u16("c"))]), ("t", rs)])], False))
+            cs.append(("ns:xhtml-doctype", enc, esc, 1, "-", "-//W3C//DTD XHTML 1.0 Strict//EN", [("el", "html", [("xmlns:s", "urn:s")], [("el", "s:e", [], []), ("el", "p", [], [("t", [SNOW])])])], False))
+    names = ["svg:svg", "svg:g", "m:mi", "x:y", "p", "span", "a", "div", "b"]
+    for i in range(n_random):
+        enc = ENCS[i % 3]
+        bound = r.sample(["svg", "m"], r.choice([1, 2]))
+        pool = ["plain", "latin1", "entity", "bmp", "astral", "tab", "markup"]
+
+        def el(depth):
+            nm = r.choice(names)
+            at = []
+            if r.random() < 0.4:
+                at.append(("title", rstr(r, r.choice([1, 3]), pool)))
+            if nm == "a" or r.random() < 0.2:
+                at.append(("href", u16("http://h/") + rstr(r, r.choice([1, 3]), ["plain", "latin1", "bmp", "astral"])))
+            kids = []
+            for _ in range(r.choice([0, 1, 2, 3]) if depth < 4 else 0):
+                if r.random() < 0.4 and not (kids and kids[-1][0] == "t"):
+                    kids.append(("t", rstr(r, r.choice([1, 2, 4]), pool)))
+                else:
+                    kids.append(el(depth + 1))
+            return ("el", nm, at, kids)
+        root = ("el", "html", [("xmlns:" + p_, "urn:" + p_) for p_ in bound], [("el", "body", [], [el(1) for _ in range(r.choice([1, 2, 3]))])])
+        flat = evs_of([root])
+        orc = not any(37 in v and s_(a) == "href" for e in flat if e[0] == "S" for a, v in e[2])
+        cs.append(("ns:tree", enc, r.choice([0, 1]), 1, "-", "-", [root], orc))
+    return cs
+
+
+def prefixes_declared(evs):
+    """every prefix of an element name is declared by an xmlns:p attribute of an open element (a stylesheet can write the tree)"""
+    stack = []
+    for e in evs:
+        if e[0] == "S":
+            stack.append({s_(a)[6:] for a, _ in e[2] if s_(a).startswith("xmlns:")})
+            nm = s_(e[1])
+            if ":" in nm and not any(nm.split(":")[0] in f for f in stack):
+                return False
+        elif e[0] == "E":
+            stack.pop()
+    return True
+
+
+def s_(units):
+    return "".join(map(chr, units))
+
+
 BLOCK = ["div", "p", "ul", "li", "table", "tr", "td", "h1", "form", "blockquote", "select", "option", "pre", "textarea"]
 INLINE = ["span", "b", "i", "a", "em", "q", "button", "label", "foo", "X-Y"]
 VOIDS = ["br", "hr", "img", "input", "BR", "Img"]
@@ -229,6 +301,8 @@ def run_cases(ctx, C08, cases, impl, model, tag):
         cid = "hh%s%d" % (tag, n0 + i)
         evs = evs_of(tree)
         line = C08.h_line(cid, enc, -1, esc, ometa, evs)
+        if cls.startswith("ns"):
+            line = "HN" + line[1:]          # a prefix resolver is set: elements in a namespace go to FormatterToXML's code
         if ds != "-" or dp != "-":
             f = lambda x: "-" if x == "-" else tok(u16(x))
             line = line.replace("%s %s -1 %d %d - -" % (cid, enc, esc, ometa), "%s %s -1 %d %d %s %s" % (cid, enc, esc, ometa, f(ds), f(dp)), 1)
@@ -258,6 +332,11 @@ def run_cases(ctx, C08, cases, impl, model, tag):
                     mb = None
                 if mb is None or ri != "ok:" + mb.hex():
                     corr.append({"case": line, "impl": ri[:240], "model": "ok:" + (mb.hex()[:240] if mb is not None else "(units the encoding cannot carry)")})
+                if "+dirty" in t[3]:
+                    corr.append({"case": line, "impl": "", "model": "the scratch string is not empty after the document (scratch_buffer_empty_between_events says it is)"})
+                if "+noteq" in t[3]:
+                    corr.append({"case": line, "impl": "", "model": "no namespace declaration, but the model with the scratch string differs from the model of the theorems (serialize_html_b_is_serialize_html says it cannot)"})
+                t[3] = t[3].split("+")[0]
                 if t[2] == "guard":
                     ctx.cov["distinct_nontrivial"] += 1
                     ctx.count("html:guard")
@@ -283,7 +362,7 @@ def run_cases(ctx, C08, cases, impl, model, tag):
     return corr, orc_fail
 
 
-def run_z(ctx, C08, r, n, impl, model, bools, urls):
+def run_z(ctx, C08, r, n, impl, model, bools, urls, ns_z=None):
     """whole transformations (method="html" indent="no"), library bytes vs the model's units for the same tree"""
     zl, hl, meta = [], [], {}
     for i in range(n):
@@ -294,10 +373,17 @@ def run_z(ctx, C08, r, n, impl, model, bools, urls):
         if any(u in (9, 10, 13) for e in evs if e[0] == "S" for _, v in e[2] for u in v):
             continue
         esc, om = r.choice([0, 1]), r.choice([0, 1])
-        cid = "hz%d" % i
+        cid = "zhh%d" % i
         outs = [[("method", "html"), ("indent", "no"), ("encoding", enc)]]
         zl.append(C08.z_line(cid, C08.sheet_of(outs, C08.body_of(evs), exclude="xalan p"), ("-", "-", str(om), str(esc))))
-        hl.append(C08.h_line(cid, enc, -1, esc, om, evs))
+        hl.append("HN" + C08.h_line(cid, enc, -1, esc, om, evs)[1:])      # the XSLT engine is the formatter's prefix resolver
+        meta[cid] = (enc, esc, om, evs, orc, zl[-1])
+    for j, (cls, enc, esc, om, ds, dp, tree, orc) in enumerate(ns_z or []):
+        evs = evs_of(tree)
+        cid = "zhn%d" % j
+        outs = [[("method", "html"), ("indent", "no"), ("encoding", enc)]]
+        zl.append(C08.z_line(cid, C08.sheet_of(outs, C08.body_of(evs), exclude="xalan p"), ("-", "-", str(om), str(esc))))
+        hl.append("HN" + C08.h_line(cid, enc, -1, esc, om, evs)[1:])
         meta[cid] = (enc, esc, om, evs, orc, zl[-1])
     res = core.run_lines_parallel(impl, zl)[1]
     mod = core.run_lines_parallel(model, hl)[1] if model else {}
@@ -375,7 +461,8 @@ def run_part(ctx):
         from props import C08
     ctx.assumptions += [
         "html: FormatterToHTML is modelled with indenting off (m_doIndent false: indent(), m_ispreserve, m_isprevtext, m_inBlockElem write nothing); the indent automaton is C08's other model",
-        "html: outside the model: m_nextIsRaw (the PI pair xslt-next-is-raw that switches escaping off), m_inCData / cdata() (cdata-section-elements), elements in a namespace (they go to FormatterToXML), entityReference(), the 512-unit staging buffer and the transcoder below accumContent (UTF-8 encoding of units, unit n -> byte n for ISO-8859-1 / US-ASCII)",
+        "html: outside the model: m_nextIsRaw (the PI pair xslt-next-is-raw that switches escaping off), m_inCData / cdata() (cdata-section-elements), entityReference(), the 512-unit staging buffer and the transcoder below accumContent (UTF-8 encoding of units, unit n -> byte n for ISO-8859-1 / US-ASCII)",
+        "html: the prefix resolver is modelled as the xmlns / xmlns:p attributes of the open elements, innermost first (what the XSLT engine's result namespace stack and the harness's HN resolver answer); NumberToDOMString / NumberToHexDOMString append to the scratch string (correspondence-checked through the seeded change C08_d only)",
         "html: the model reader is HTML 4.01's: explicit nesting only (no implied start/end tags, so the tree must already obey the content model), no RCDATA mode for TITLE/TEXTAREA, no line-end normalisation of the input, a minimised attribute reads as name = value (folded), a comment ends at the first '--' followed by '>'",
         "html: strings are XML character strings of well-formed UTF-16 (lone surrogates = C04's K7 class, not generated)",
     ]
@@ -423,8 +510,13 @@ def run_part(ctx):
             tree, orc = gen_tree(C08, r, enc, bools, urls, i % 4 == 3)
             dp = r.choice(["-", "-", "-", "-//W3C//DTD HTML 4.01//EN"])
             cases.append(("tree", enc, r.choice([0, 1]), r.choice([0, 1]), "-", dp, tree, orc and dp == "-"))
+        nsc = ns_cases(r, max(30, n_trees // 4))
+        cases += nsc
         c1, f1 = run_cases(ctx, C08, cases, impl, model, "s%d" % len(corr))
-        c2, f2 = run_z(ctx, C08, r, n_z, impl, model, bools, urls)
+        # through XalanTransformer: what a stylesheet can produce (no unbound prefix, no TAB in a literal attribute, no PI/comment shortcut needed)
+        nz = [x for x in nsc if x[0].split(":")[1] in ("root-decl", "self-decl", "default", "tree", "xhtml-doctype") and x[5] == "-"
+              and not any(u in (9, 10, 13) for e in evs_of(x[6]) if e[0] == "S" for _, v in e[2] for u in v) and prefixes_declared(evs_of(x[6]))]
+        c2, f2 = run_z(ctx, C08, r, n_z, impl, model, bools, urls, ns_z=r.sample(nz, min(len(nz), max(20, n_z // 2))))
         return c1 + c2, f1 + f2
     c, f = stage(400 if quick else 6000, 40 if quick else 600)
     corr += c
@@ -441,7 +533,10 @@ def run_part(ctx):
         ctx.broken.append("correspondence html: %d cases differ between the extracted model of FormatterToHTML and the library, e.g. %s" % (len(corr), str(corr[0])[:700]))
         ctx.notes["html_correspondence_mismatches"] = [dict(c_, case=c_["case"][:400]) for c_ in corr[:10]]
     if fails:
-        fails.sort(key=lambda x: len(x["case"]))
+        # whole transformations first (check.py --replay judges Z lines with ids zh... by the html.parser verdict), then the shortest scripts
+        zf = sorted([x for x in fails if x["case"].startswith("Z zh")], key=lambda x: len(x["case"]))
+        hf = sorted([x for x in fails if not x["case"].startswith("Z zh")], key=lambda x: len(x["case"]))
+        fails = zf[:10] + hf
         txt = "\n".join("%s\n#   %s" % (x["case"], x["what"]) for x in fails[:30])
         ctx.violation("oracle_html", "# C08 (html part) oracle failures. Replay: python3 check.py C08 --replay <this file>  (H / Z lines of .build/outopt_plain)\n" + txt)
     ctx.notes["html_oracle_failures"] = len(fails)
